@@ -175,6 +175,16 @@ pub fn map_ladder(mtag: u32, depth: usize) -> Vec<u8> {
     cur
 }
 
+/// wrapper impls (prost/types.rs): encode / encoded_len / decode round trip
+pub fn gen_wrappers(r: &mut Rng, thorough: bool, out: &mut Vec<String>) {
+    for (k, c) in WRAP_KINDS {
+        out.push(format!("pbwrapenc {} {}", k, c.default().sexp()));
+        for _ in 0..(if thorough { 300 } else { 15 }) { out.push(format!("pbwrapenc {} {}", k, gen_sv(r, c).sexp())); }
+    }
+    out.push("pbwrapenc f32 (f32 80000000)".into());
+    out.push("pbwrapenc f64 (f64 8000000000000000)".into());
+}
+
 pub const DEPTHS: [usize; 12] = [1, 2, 3, 49, 50, 51, 98, 99, 100, 101, 150, 300];
 
 pub fn gen_adversarial(r: &mut Rng, thorough: bool, out: &mut Vec<String>) {
